@@ -19,9 +19,9 @@
 (* v3/v4 (frame_header_v1_v2 / frame_header_v3 + the version byte).            *)
 (*                                                                            *)
 (* One Read(k) = one invocation of the read handler = append k bytes, then the *)
-(* maximal drain loop of process_io_buffer (operator Drain; its two branches   *)
-(* are the ParseHeader and Deliver steps).  All loop-thread callbacks are      *)
-(* atomic with respect to each other, so Read is one action.                   *)
+(* maximal drain loop of process_io_buffer (operator Drain, made of the        *)
+(* ParseHeader and Deliver steps).  All loop-thread callbacks are atomic with  *)
+(* respect to each other, so Read is one action.                               *)
 EXTENDS Integers, Sequences, FiniteSets, TLC
 
 CONSTANTS Vers,        \* protocol versions of the frame headers (subset of 1..4; 5 in Segments.tla)
@@ -71,32 +71,40 @@ FState == [buf |-> buf, cur |-> cur, delivered |-> delivered, pushed |-> pushed,
            order |-> order, desync |-> desync]
 FInit  == [buf |-> <<>>, cur |-> 0, delivered |-> <<>>, pushed |-> <<>>, order |-> <<>>, desync |-> FALSE]
 
+(* _read_frame_header: the first buffered byte is taken as the version byte; with a whole header *)
+(* in the buffer _current_frame is set                                                          *)
+ParseHeader(fs, r) ==
+    IF r.desync \/ r.cur # 0 \/ Len(r.buf) = 0 THEN r
+    ELSE LET b1 == r.buf[1] IN
+         IF b1[2] # 1 THEN [r EXCEPT !.desync = TRUE]
+         ELSE LET i == b1[1]
+                  h == HdrLen(fs[i].ver) IN
+              IF Len(r.buf) < h THEN r                                   \* incomplete header: wait
+              ELSE IF \A p \in 1..h : r.buf[p] = <<i, p>>
+                   THEN [r EXCEPT !.cur = i]
+                   ELSE [r EXCEPT !.desync = TRUE]
+
+(* pos >= _current_frame.end_pos *)
+CanDeliver(fs, r) == ~r.desync /\ r.cur # 0 /\ Len(r.buf) >= HdrLen(fs[r.cur].ver) + fs[r.cur].blen
+
+(* process_msg(frame, body); reset_cql_frame_buffer(); _current_frame = None *)
+Deliver(fs, r) ==
+    LET i == r.cur
+        h == HdrLen(fs[i].ver)
+        e == h + fs[i].blen                                              \* _Frame.end_pos
+        body == SubSeq(r.buf, h + 1, e)
+        rec  == [idx |-> i, stream |-> StreamOf(fs, i), len |-> Len(body),
+                 exact |-> body = ExpectedBody(fs, i)]
+        rest == SubSeq(r.buf, e + 1, Len(r.buf)) IN
+    [r EXCEPT !.buf = rest, !.cur = 0, !.order = Append(@, i),
+              !.delivered = IF fs[i].neg THEN @ ELSE Append(@, rec),
+              !.pushed = IF fs[i].neg THEN Append(@, rec) ELSE @]
+
+(* the loop of process_io_buffer (without checksumming): parse, deliver, again, until something is incomplete *)
 RECURSIVE Drain(_, _)
 Drain(fs, r) ==
-    IF r.desync \/ Len(r.buf) = 0 THEN r
-    ELSE IF r.cur = 0 THEN
-        (* _read_frame_header: the first buffered byte is taken as the version byte *)
-        LET b1 == r.buf[1] IN
-        IF b1[2] # 1 THEN [r EXCEPT !.desync = TRUE]
-        ELSE LET i == b1[1]
-                 h == HdrLen(fs[i].ver) IN
-             IF Len(r.buf) < h THEN r                                   \* incomplete header: wait
-             ELSE IF \A p \in 1..h : r.buf[p] = <<i, p>>
-                  THEN Drain(fs, [r EXCEPT !.cur = i])                   \* ParseHeader
-                  ELSE [r EXCEPT !.desync = TRUE]
-    ELSE
-        LET i == r.cur
-            h == HdrLen(fs[i].ver)
-            e == h + fs[i].blen IN                                       \* _Frame.end_pos
-        IF Len(r.buf) < e THEN r                                         \* incomplete body: wait
-        ELSE                                                             \* Deliver: process_msg
-            LET body == SubSeq(r.buf, h + 1, e)
-                rec  == [idx |-> i, stream |-> StreamOf(fs, i), len |-> Len(body),
-                         exact |-> body = ExpectedBody(fs, i)]
-                rest == SubSeq(r.buf, e + 1, Len(r.buf)) IN              \* reset_cql_frame_buffer
-            Drain(fs, [r EXCEPT !.buf = rest, !.cur = 0, !.order = Append(@, i),
-                                !.delivered = IF fs[i].neg THEN @ ELSE Append(@, rec),
-                                !.pushed = IF fs[i].neg THEN Append(@, rec) ELSE @])
+    LET r1 == ParseHeader(fs, r) IN
+    IF CanDeliver(fs, r1) THEN Drain(fs, Deliver(fs, r1)) ELSE r1
 
 Feed(fs, r, chunk) == Drain(fs, [r EXCEPT !.buf = @ \o chunk])
 
